@@ -165,6 +165,12 @@ def run(ctx):
                         probs.append(("spreading-normalised", "min %.3g, integral %.12g" % (g.min(), g.sum() * dd)))
                     if not np.allclose(g, np.roll(ref, k), rtol=1e-9, atol=1e-15):
                         probs.append(("spreading-rotates", "cartwright(dm=%g, under_90=%s) is not the dm=180 spreading rolled by %d bins" % (dm, under, k)))
+                    # the same circle labelled -180..180, or with north as 360: the same spreading at the same physical directions
+                    for lname, lab in ((("-180..180", np.where(dirs > 180, dirs - 360, dirs)), ("north=360", np.where(dirs == 0, 360.0, dirs)))
+                                       if 0 <= dm < 360 else ()):       # (a mean direction outside [0,360) AND relabelled bins: not claimed)
+                        g2 = np.asarray(cartwright(lab, dm, dspr, under_90=under).values, float)
+                        if not np.allclose(g2, g, rtol=1e-9, atol=1e-15):
+                            probs.append(("spreading-label-convention", "cartwright(dm=%g, under_90=%s) on directions labelled %s differs from the 0..360 labelling" % (dm, under, lname)))
                     if probs:
                         for clause, msg in probs:
                             ctx.violation({"shape": "cartwright", "clause": clause, "under_90": under}, msg, {"nd": nd, "dspr": dspr, "dm": dm})
